@@ -240,6 +240,9 @@ func runC04(w *World, r *Report) {
 		})
 	}
 
+	r.Rule("C04.copy-partition", "a node's output is copied once per edge successor, once per branch condition and once per branch result, and the branch conditions read only their own copies (shared with C01): under Stream / Collect / Transform a condition must not drain the stream an edge successor receives", 2)
+	copyPartitionCheck(w, r, "C04.copy-partition")
+
 	// ---- role-uniform (generalises in-out-wiring to every struct and function of the module)
 	r.Rule("C04.role-uniform", "within one function, same-role fields (input* / output*, pre* / post*) of one struct are filled from sources of one role; a lone cross-role assignment is a copy within one object", 20)
 	ruleRoleUniform(w, r, "C04.role-uniform", "compose", "schema", "internal", "flow", "callbacks", "components", "utils")
@@ -390,6 +393,7 @@ func runC04(w *World, r *Report) {
 	mergedCloseAll(w, r, "C04.stream-substrate")
 	copyCellChecks(w, r, "C04.stream-substrate")
 	selectTableCheck(w, r, "C04.stream-substrate")
+	syncFillBounded(w, r, "C04.stream-substrate")
 
 	// ---- no-compile-time-stream
 	// ---- stream-elem-type: the stream form of a handler yields chunks of the type the value form yields
